@@ -365,7 +365,9 @@ class C14(Spec):
                     mkjob(["m1", "m2"], lifecycle="calls", K=4, fixed=HEALTHY),
                     mkjob(["m1"], lifecycle="run", N=3, fixed=HEALTHY), mkjob([], missing=True)]
         return [mkjob(["m1", "m2"]), mkjob(["m1", "m2", "m3"], fixed={"A.named": True, "A.disabled": False, "A.ctorfail": False, "D.disabled": False}),
-                mkjob(["m1", "m2"], lifecycle="calls", K=6, fixed=HEALTHY), mkjob(["m1", "m2"], lifecycle="calls", K=4, fixed={k: v for k, v in HEALTHY.items() if not k.startswith("B.")}),
+                mkjob(["m1", "m2"], lifecycle="calls", K=5, fixed=HEALTHY), mkjob(["m1", "m2"], lifecycle="calls", K=3, fixed={k: v for k, v in HEALTHY.items() if not k.startswith("B.")}),
+                mkjob(["m1", "m4", "m5"], fixed={"A.named": True, "A.disabled": False, "A.ctorfail": False, "B.named": True, "B4.named": True, "B5.named": True,
+                                                 "B.ctorfail": False, "B4.ctorfail": False, "B5.ctorfail": False, "m1.importfail": False, "m4.importfail": False, "m5.importfail": False}),
                 mkjob(["m1", "m2"], lifecycle="run", N=4, fixed=HEALTHY), mkjob([], missing=True)]
 
     def bounds(self, tier):
